@@ -359,14 +359,20 @@ static void emit_obs(void)
 
 /* every line carries every field so that the trace specification can treat
    lines as records of one shape */
-static struct { long len, cap; int cond, ret, err, mi, fl, ok, rst, rty; } F;
+static struct { long len, cap; int cond, ret, err, mi, fl, ok, rst, rty; long gl; } F;
+
+/* byte streams, "flushed and closed gracefully" (C02): fin_ok[e]: the last thing e did after its last send was an
+   xcm_finish that returned 0; grace[e]: e then closed in an orderly way, its peer never calling xcm_send (data sent to a closed
+   peer is answered with a reset, which is TCP's doing); noisy: an
+   errno was injected or a blocking-mode call was used somewhere in this execution (nothing is concluded then) */
+static int fin_ok[3], grace[3], noisy, cut[3], tried_send[3];	/* cut[e]: a send of e was refused */
 
 static void emit_begin(const char *op, int e)
 {
     stepno++;
     fprintf(out, "{\"x\":%ld,\"n\":%ld,\"op\":\"%s\",\"e\":%d,\"len\":%ld,\"cap\":%ld,\"cond\":%d,"
-	    "\"ret\":%d,\"err\":%d,\"mi\":%d,\"fl\":%d,\"ok\":%d,\"rst\":%d,\"rty\":%d",
-	    xid, stepno, op, e, F.len, F.cap, F.cond, F.ret, F.err, F.mi, F.fl, F.ok, F.rst, F.rty);
+	    "\"ret\":%d,\"err\":%d,\"mi\":%d,\"fl\":%d,\"ok\":%d,\"rst\":%d,\"rty\":%d,\"gl\":%ld",
+	    xid, stepno, op, e, F.len, F.cap, F.cond, F.ret, F.err, F.mi, F.fl, F.ok, F.rst, F.rty, F.gl - 1);
     memset(&F, 0, sizeof(F));
 }
 
@@ -484,7 +490,9 @@ static int setup(const char *tpname, const char *mode)
 	nacalls[e] = 0;
 	cap_len[e] = 0;
 	unchk[e] = 0;
+	fin_ok[e] = grace[e] = cut[e] = tried_send[e] = 0;
     }
+    noisy = 0;
     rawpend_len = rawpend_off = 0;
     raw_written = 0;
     raw_frames = 0;
@@ -707,6 +715,7 @@ static void emit_lsum(int e, struct lsum l)
 /* start a blocking send / receive on endpoint e in the helper thread */
 static void do_blk_start(int e, int op, long arg)
 {
+    noisy = 1;
     if (ep[e] == NULL || blk.running)
 	return;
     memset(&blk, 0, sizeof(blk));
@@ -802,6 +811,13 @@ static bool do_blk_join(int sig, int grace_ms)
 		cap_tok[e] = acalls[e][nacalls[e]].ptok;
 		cap_len[e] = acalls[e][nacalls[e]].plen;
 		cap_off[e] = acalls[e][nacalls[e]].poff;
+	    }
+	    if (rc <= 0 && cap_len[e] == 0 && blk.len > 0) {
+		/* failed as a whole (a signal while it waited after the lower layer's refusal): like a send refused with
+		   EAGAIN, the TLS library may hold a record made of the bytes it offered */
+		cap_tok[e] = blk.stok;
+		cap_off[e] = 0;
+		cap_len[e] = blk.len;
 	    } else if (rc > 0 && rc < blk.len) {
 		/* accepted in part (interrupted): the TLS library may hold a record made of the
 		   bytes that follow */
@@ -968,6 +984,18 @@ static int stream_check(int e, int rc)
 			    break;
 		    if (j == n)
 			ok = 2;
+		    if (ok == 0 && getenv("VERIF_DEBUG_STREAM")) {
+			for (long t = 1; t <= ntok[p] + 2; t++)
+			    for (long off = 0; off < 70000; off++) {
+				int k;
+				for (k = 0; k < 12 && k < rc - d; k++)
+				    if (rbufg[d + k] != mix(p * 11 + (unsigned)xid * 131, (unsigned)t, off + k))
+					break;
+				if (k == 12)
+				    fprintf(stderr, "DEBUG stream: unexpected bytes at pos %ld (d=%ld) are token %ld offset %ld; expected ptok %ld poff %ld o %ld plen %ld\n",
+					    pos, d, t, off, ptok, poff, o, plen);
+			    }
+		    }
 		}
 		unchk[e] = 1;
     }
@@ -980,6 +1008,10 @@ static void do_send(int e, long len, long wc, int werr, int pol)
 {
     if (ep[e] == NULL)
 	return;
+    fin_ok[e] = 0;
+    tried_send[e] = 1;
+    if (werr)
+	noisy = 1;
     long tok;
     int rty = 0;
     if (is_stream && pol > 0 && ref_len[e] > 0) {
@@ -1025,6 +1057,8 @@ static void do_send(int e, long len, long wc, int werr, int pol)
 	fail_tok[e][nfail[e]] = tok;
 	fail_len[e][nfail[e]++] = (int)blen;
     }
+    if (is_stream && rc < 0)	/* refused: btls may hold a half-written record from now on */
+	cut[e] = 1;
     settle();
     last_rc = rc; last_err = rc < 0 ? err : 0;
     F.len = blen; F.ret = rc; F.err = rc < 0 ? err : 0; F.rty = rty;
@@ -1042,6 +1076,8 @@ static void do_receive(int e, long cap, long rc_credit, int rerr, long wc, int w
     if (cap > MAXMSG)
 	cap = MAXMSG;
     memset(rbufg, 0xA5, cap + 32);
+    if (werr || rerr)
+	noisy = 1;
     plan(e, wc, werr, rc_credit, rerr);
     shim_enter(e);
     errno = 0;
@@ -1106,6 +1142,9 @@ static void do_receive(int e, long cap, long rc_credit, int rerr, long wc, int w
     settle();
     last_rc = rc; last_err = rc < 0 ? err : 0;
     F.cap = cap; F.ret = rc; F.err = rc < 0 ? err : 0; F.mi = mi; F.fl = fl; F.ok = ok;
+    /* the end of a stream whose sender flushed and closed gracefully: how many accepted bytes never came (C02) */
+    if (is_stream && !raw_mode && !noisy && !unchk[e] && !tried_send[e] && grace[p] && (rc == 0 || (rc < 0 && err != EAGAIN)))
+	F.gl = (stream_len[p] - stream_rd[e]) + 1;
     emit_begin("r", e);
     emit_io(e);
     emit_obs();
@@ -1116,11 +1155,14 @@ static void do_finish(int e, long wc, int werr)
 {
     if (ep[e] == NULL)
 	return;
+    if (werr)
+	noisy = 1;
     plan(e, wc, werr, SHIM_UNLIMITED, 0);
     shim_enter(e);
     errno = 0;
     int rc = xcm_finish(ep[e]);
     int err = errno;
+    fin_ok[e] = rc == 0;
     shim_leave();
     unplan(e);
     settle();
@@ -1171,6 +1213,8 @@ static void do_close(int e, int rst)
 	    struct linger lg = { 1, 0 };
 	    setsockopt(kfd[e], SOL_SOCKET, SO_LINGER, &lg, sizeof(lg));
 	}
+	if (!rst && is_stream && fin_ok[e] && !cut[e] && stream_len[3 - e] == 0 && !blk.running)
+	    grace[e] = 1;
 	plan(e, SHIM_UNLIMITED, 0, SHIM_UNLIMITED, 0);
 	shim_enter(e);
 	xcm_close(ep[e]);
